@@ -63,7 +63,62 @@ let c16 file =
     | [] -> ()
     | _ -> failwith ("c16: bad line " ^ line)) (read_lines file)
 
+(* ---------------------------------------------------------------- C04 *)
+let b2i b = if b then 1 else 0
+let zi = z_of_int and iz = int_of_z
+let est s = Printf.sprintf "%d %d %d %d %d %d %d %d %d" (iz s.e_centerW) (iz s.e_cur) (iz s.e_storage)
+    (iz s.e_eof) (iz s.e_gran) (iz s.e_seq) (b2i s.e_lW) (b2i s.e_W) (b2i s.e_nW)
+let c04 file =
+  let cfg = ref { bs0 = zi 0; bs1 = zi 0; hs = zi 0 } in
+  let es = ref (enc_init !cfg) and ds = ref (dec_init !cfg) in
+  let lastb = ref None and nin = ref 0 and total = ref 0 in
+  List.iter (fun line ->
+    match split line with
+    | "case" :: _ -> print_endline line
+    | ["cfg"; a; b] ->
+        cfg := { bs0 = zi (int_of_string a); bs1 = zi (int_of_string b); hs = zi 0 };
+        es := enc_init !cfg; ds := dec_init !cfg; nin := 0; total := 0; lastb := None;
+        print_endline line
+    | "E0" :: _ -> Printf.printf "E0 %s\n" (est !es)
+    | "B" :: n :: _ ->
+        es := enc_buffer !es (zi (int_of_string n));
+        Printf.printf "B %s | %d %d\n" n (iz !es.e_cur) (iz !es.e_storage)
+    | "W" :: n :: _ ->
+        let (rc, s) = enc_wrote !cfg !es (zi (int_of_string n)) in
+        es := s; if iz rc = 0 && int_of_string n > 0 then nin := !nin + int_of_string n;
+        Printf.printf "W %s | %d  %s\n" n (iz rc) (est s)
+    | "O" :: bp :: _ ->
+        let bpz = if bp = "x" then zi (-1) else zi (int_of_string bp) in
+        let (s, ob) = enc_blockout !cfg !es bpz in
+        es := s;
+        (match ob with
+         | None -> Printf.printf "O %s | 0  %s\n" bp (est s)
+         | Some b ->
+             lastb := Some b;
+             Printf.printf "O %s | 1 %d %d %d %d %d %d ;  %s\n" bp (b2i b.b_lW) (b2i b.b_W) (b2i b.b_nW)
+               (iz b.b_seq) (iz b.b_gran) (b2i b.b_eof) (est s))
+    | ["P"; w; g; pk; eos] ->
+        (match !lastb with
+         | Some b -> Printf.printf "P %d %d %d %d\n" (b2i b.b_W) (iz b.b_gran) (iz b.b_seq) (b2i b.b_eof)
+         | None -> print_endline "P none")
+    | "D" :: sr :: _ ->
+        (match !lastb with
+         | None -> print_endline "D none"
+         | Some b ->
+             if int_of_string sr <> 0 then Printf.printf "D %s -999 | model-skips\n" sr
+             else begin
+               let (rc, s) = dec_blockin !cfg !ds (to_dblock b) in
+               let cnt = iz (dec_pcmout s) in
+               Printf.printf "D 0 %d | %d ; %d %d %d %d %d %d %d %d\n" (iz rc) cnt (iz s.d_centerW) (iz s.d_cur) (iz s.d_ret)
+                 (iz s.d_gran) (iz s.d_seq) (b2i s.d_lW) (b2i s.d_W) (iz s.d_count);
+               let (_, s2) = dec_read s (zi cnt) in ds := s2; total := !total + cnt
+             end)
+    | "T" :: _ -> Printf.printf "T %d %d\n" !nin !total
+    | "setup" :: _ -> print_endline line
+    | _ -> ()) (read_lines file)
+
 let () =
   match Array.to_list Sys.argv with
+  | [_; "c04"; f] -> c04 f
   | [_; "c16"; f] -> c16 f
   | _ -> prerr_endline "usage: driver <mode> <cases>"; exit 2
